@@ -1,7 +1,410 @@
-(* Lemmas about Model/Metrics.v (used by Properties/C06.v). *)
-From Coq Require Import QArith Qabs Qminmax.
-From E3FP Require Import Base.Prelude Base.ZSet Model.Fprint Model.Metrics.
-Open Scope Z_scope.
+(* The calling conventions (dispatcher, _check_array_pair): rejections, and every calling form on two fingerprints
+   reaches a path whose value is the definition on the fingerprints' dense vectors. *)
+From Coq Require Import QArith Qabs Qminmax Lqa Lia ZifyBool Sorting.Sorted.
+From E3FP Require Import Base.Prelude Base.ZSet Model.Fprint Model.Metrics
+  Proofs.MetricsBase Proofs.MetricsDefs Proofs.MetricsDense Proofs.MetricsSparse Proofs.MetricsFp.
+Open Scope Q_scope.
 
+(* equality of results: rationals by ==, rooted values by their signed square *)
+Definition value_eqv (v w : value) : Prop :=
+  match v, w with
+  | VQ p, VQ q => p == q
+  | VR r, VR s => rsq r == rsq s
+  | _, _ => False
+  end.
+
+(* ---- rejections ---- *)
 Lemma width_mismatch_array m X Y : arr_width X <> arr_width Y -> array_metric m X (Some Y) = Raises EValue.
 Proof. intro H. unfold array_metric. apply Z.eqb_neq in H. rewrite H. reflexivity. Qed.
+
+Lemma bits_mismatch_dispatch m A B x y :
+  item_bits A = Some x -> item_bits B = Some y -> x <> y -> dispatch m A (Some B) = Raises EBits.
+Proof. intros HA HB H. unfold dispatch. rewrite HA, HB. apply Z.eqb_neq in H. rewrite H. reflexivity. Qed.
+
+Lemma non_fingerprint_dispatch_l m B : dispatch m IOther (Some B) = Raises EType.
+Proof. reflexivity. Qed.
+
+Lemma non_fingerprint_dispatch_r m A : dispatch m A (Some IOther) = Raises EType.
+Proof. unfold dispatch. simpl. destruct (item_bits A); reflexivity. Qed.
+
+(* ---- CSR paths equal the definitions on the dense expansions ---- *)
+Definition row_binary (n : Z) (r : row) : Prop := forall i, rget r i == 0 \/ rget r i == 1.
+
+Lemma expand_binary n r : row_binary n r -> binary (expand n r).
+Proof.
+  intro H. unfold expand, binary. rewrite Forall_forall. intros v Hv. apply in_map_iff in Hv.
+  destruct Hv as [i [<- _]]. apply H.
+Qed.
+
+Lemma expand_same_length n r s : (0 <= n)%Z -> length (expand n r) = length (expand n s).
+Proof. intro H. rewrite !expand_length by exact H. reflexivity. Qed.
+
+Lemma sp_tanimoto_eq_def n r s : (0 <= n)%Z -> in_range n r -> in_range n s -> row_binary n r -> row_binary n s ->
+  sp_tanimoto r s == tanimoto_def (expand n r) (expand n s).
+Proof.
+  intros Hn Hr Hs Br Bs. rewrite (sp_tanimoto_eq_dense n r s Hr Hs).
+  apply arr_tanimoto_eq_def; [apply expand_same_length; exact Hn | apply expand_binary; exact Br | apply expand_binary; exact Bs].
+Qed.
+
+Lemma sp_dice_eq_def n r s : (0 <= n)%Z -> in_range n r -> in_range n s -> row_binary n r -> row_binary n s ->
+  sp_dice r s == dice_def (expand n r) (expand n s).
+Proof.
+  intros Hn Hr Hs Br Bs. rewrite (sp_dice_eq_dense n r s Hr Hs).
+  apply arr_dice_eq_def; [apply expand_same_length; exact Hn | apply expand_binary; exact Br | apply expand_binary; exact Bs].
+Qed.
+
+Lemma sp_cosine_eq_def n r s : in_range n r -> in_range n s ->
+  rsq (sp_cosine r s) == rsq (cosine_def (expand n r) (expand n s)).
+Proof. intros Hr Hs. rewrite (sp_cosine_eq_dense n r s Hr Hs). apply arr_cosine_eq_def. Qed.
+
+Lemma sp_pearson_eq_def n r s : (0 <= n)%Z -> in_range n r -> in_range n s ->
+  rsq (sp_pearson n r s) == rsq (pearson_def (expand n r) (expand n s)).
+Proof.
+  intros Hn Hr Hs. rewrite (sp_pearson_eq_dense n r s Hn Hr Hs). apply arr_pearson_eq_def. apply expand_same_length. exact Hn.
+Qed.
+
+(* ---- the definitions only see the entries: vectors given as maps over the same index list ---- *)
+Section Ext.
+  Variables (f f' g g' : Z -> Q) (l : list Z).
+
+  Lemma zsum_ext (h h' : Q -> Q -> Q) :
+    (forall i, h (f i) (g i) == h' (f' i) (g' i)) ->
+    qsumr (zipw h (map f l) (map g l)) == qsumr (zipw h' (map f' l) (map g' l)).
+  Proof. intro H. rewrite !zipw_map_same. apply qsumr_map_ext'. intros i _. apply H. Qed.
+
+  Hypothesis Hf : forall i, f i == f' i.
+  Hypothesis Hg : forall i, g i == g' i.
+
+  Lemma dot_ext2 : dot (map f l) (map g l) == dot (map f' l) (map g' l).
+  Proof. unfold dot. apply zsum_ext. intro i. rewrite Hf, Hg. reflexivity. Qed.
+
+  Lemma soergel_ext : soergel_def (map f l) (map g l) == soergel_def (map f' l) (map g' l).
+  Proof.
+    assert (E1 : sum_max (map f l) (map g l) == sum_max (map f' l) (map g' l)).
+    { unfold sum_max. apply zsum_ext. intro i. apply Q.max_compat; auto. }
+    assert (E2 : sum_absdiff (map f l) (map g l) == sum_absdiff (map f' l) (map g' l)).
+    { unfold sum_absdiff. apply zsum_ext. intro i. apply Qabs_wd. rewrite Hf, Hg. reflexivity. }
+    unfold soergel_def. rewrite (Qeq_bool_compat _ _ E1). destruct (Qeq_bool _ 0); [reflexivity|]. rewrite E1, E2. reflexivity.
+  Qed.
+End Ext.
+
+Lemma cosine_ext (f f' g g' : Z -> Q) l : (forall i, f i == f' i) -> (forall i, g i == g' i) ->
+  rsq (cosine_def (map f l) (map g l)) == rsq (cosine_def (map f' l) (map g' l)).
+Proof.
+  intros Hf Hg. unfold cosine_def. apply rsq_compat.
+  - apply dot_ext2; assumption.
+  - rewrite (dot_ext2 f f' f f' l Hf Hf), (dot_ext2 g g' g g' l Hg Hg). reflexivity.
+Qed.
+
+Lemma qsumr_map_ext_z (f f' : Z -> Q) l : (forall i, f i == f' i) -> qsumr (map f l) == qsumr (map f' l).
+Proof. intro H. apply qsumr_map_ext'. intros i _. apply H. Qed.
+
+Lemma pearson_ext (f f' g g' : Z -> Q) l : (forall i, f i == f' i) -> (forall i, g i == g' i) ->
+  rsq (pearson_def (map f l) (map g l)) == rsq (pearson_def (map f' l) (map g' l)).
+Proof.
+  intros Hf Hg.
+  assert (Mf : mean (map f l) == mean (map f' l)).
+  { unfold mean, qlen. rewrite !map_length, (qsumr_map_ext_z f f' l Hf). reflexivity. }
+  assert (Mg : mean (map g l) == mean (map g' l)).
+  { unfold mean, qlen. rewrite !map_length, (qsumr_map_ext_z g g' l Hg). reflexivity. }
+  unfold pearson_def, center. rewrite !map_map.
+  apply rsq_compat.
+  - apply dot_ext2; intro i; [rewrite Hf, Mf | rewrite Hg, Mg]; reflexivity.
+  - rewrite (dot_ext2 (fun i => f i - mean (map f l)) (fun i => f' i - mean (map f' l)) (fun i => f i - mean (map f l)) (fun i => f' i - mean (map f' l)) l),
+            (dot_ext2 (fun i => g i - mean (map g l)) (fun i => g' i - mean (map g' l)) (fun i => g i - mean (map g l)) (fun i => g' i - mean (map g' l)) l);
+      try (intro i; rewrite ?Hf, ?Mf, ?Hg, ?Mg; reflexivity). reflexivity.
+Qed.
+
+(* Tanimoto and Dice only see which entries are non-zero *)
+Lemma n_and_ext (f f' g g' : Z -> Q) l : (forall i, nz (f i) = nz (f' i)) -> (forall i, nz (g i) = nz (g' i)) ->
+  n_and (map f l) (map g l) == n_and (map f' l) (map g' l).
+Proof. intros Hf Hg. unfold n_and. apply zsum_ext. intro i. rewrite Hf, Hg. reflexivity. Qed.
+
+Lemma n_or_ext (f f' g g' : Z -> Q) l : (forall i, nz (f i) = nz (f' i)) -> (forall i, nz (g i) = nz (g' i)) ->
+  n_or (map f l) (map g l) == n_or (map f' l) (map g' l).
+Proof. intros Hf Hg. unfold n_or. apply zsum_ext. intro i. rewrite Hf, Hg. reflexivity. Qed.
+
+Lemma n_on_ext (f f' : Z -> Q) l : (forall i, nz (f i) = nz (f' i)) -> n_on (map f l) == n_on (map f' l).
+Proof. intro Hf. unfold n_on. rewrite !map_map. apply qsumr_map_ext'. intros i _. rewrite Hf. reflexivity. Qed.
+
+Lemma tanimoto_ext (f f' g g' : Z -> Q) l : (forall i, nz (f i) = nz (f' i)) -> (forall i, nz (g i) = nz (g' i)) ->
+  tanimoto_def (map f l) (map g l) == tanimoto_def (map f' l) (map g' l).
+Proof. intros Hf Hg. unfold tanimoto_def. apply sdiv_compat; [apply n_and_ext | apply n_or_ext]; assumption. Qed.
+
+Lemma dice_ext (f f' g g' : Z -> Q) l : (forall i, nz (f i) = nz (f' i)) -> (forall i, nz (g i) = nz (g' i)) ->
+  dice_def (map f l) (map g l) == dice_def (map f' l) (map g' l).
+Proof.
+  intros Hf Hg. unfold dice_def. apply sdiv_compat.
+  - rewrite (n_and_ext f f' g g' l Hf Hg). reflexivity.
+  - rewrite (n_on_ext f f' l Hf), (n_on_ext g g' l Hg). reflexivity.
+Qed.
+
+(* ---- the rows the dispatcher builds from a fingerprint ---- *)
+Lemma cget_counts_rget a i : wf_fp a -> cget (counts_of a) i == rget (counts_of a) i.
+Proof. intro H. apply cget_rget. apply NoDup_counts_of. exact H. Qed.
+
+Lemma zmem_rget_zero a i : wf_fp a -> zmem i (fidx a) = false -> rget (counts_of a) i == 0.
+Proof. intros H E. apply rget_notin. rewrite (keys_counts_of a H). apply zmem_false. exact E. Qed.
+
+(* own dtype: the row has the entries of the counts dict *)
+Lemma rget_fp_row_own a i : wf_fp a -> rget (fp_row (fkind a) a) i == rget (counts_of a) i.
+Proof.
+  intro H. unfold fp_row. rewrite (rget_mapkeys (fidx a) (fun k => cast_dtype (fkind a) (cget (counts_of a) k)) i)
+    by (apply ssorted_NoDup; apply H).
+  destruct (zmem i (fidx a)) eqn:E.
+  - pose proof (cget_counts_rget a i H) as CG. unfold cast_dtype. destruct (fkind a) eqn:K; try exact CG.
+    (* a bit fingerprint: the entry is 1 *)
+    assert (E1 : rget (counts_of a) i == 1).
+    { unfold counts_of. rewrite K. unfold bit_counts, cbuild. rewrite rget_mapkeys by (apply ssorted_NoDup; apply H). rewrite E. reflexivity. }
+    rewrite (nz_compat _ _ CG), (nz_compat _ _ E1), E1. reflexivity.
+  - symmetry. apply zmem_rget_zero; assumption.
+Qed.
+
+(* cast to bool: the row has 1 where the counts dict has a non-zero entry *)
+Lemma rget_fp_row_bit a i : wf_fp a -> rget (fp_row KBit a) i == b01 (nz (rget (counts_of a) i)).
+Proof.
+  intro H. unfold fp_row. rewrite (rget_mapkeys (fidx a) (fun k => cast_dtype KBit (cget (counts_of a) k)) i)
+    by (apply ssorted_NoDup; apply H).
+  destruct (zmem i (fidx a)) eqn:E.
+  - unfold cast_dtype. rewrite (nz_compat _ _ (cget_counts_rget a i H)). reflexivity.
+  - rewrite (nz_compat _ _ (zmem_rget_zero a i H E)). reflexivity.
+Qed.
+
+Lemma in_range_fp_row k a : wf_fp a -> in_range (fbits a) (fp_row k a).
+Proof.
+  intros (_ & R & _). unfold in_range, fp_row. rewrite Forall_forall in *. intros e He. apply in_map_iff in He.
+  destruct He as [i [<- Hi]]. simpl. apply R. exact Hi.
+Qed.
+
+(* db.as_type(Fingerprint) of a single-row database made from b (own kind) *)
+Definition cast_row (k : kind) (r : row) : row := map (fun e => (fst e, cast_dtype k (snd e))) r.
+
+Lemma rget_cast_row_bit r i : NoDup (keys r) -> rget (cast_row KBit r) i == b01 (nz (rget r i)).
+Proof.
+  induction r as [|[j v] t IH]; intro ND; [reflexivity|].
+  simpl in ND. inversion ND as [|? ? Hn ND']; subst. simpl. destruct (i =? j)%Z eqn:E.
+  - apply Z.eqb_eq in E. subst i.
+    assert (Z1 : rget (cast_row KBit t) j == 0).
+    { apply rget_notin. unfold cast_row, keys. rewrite map_map. simpl. exact Hn. }
+    assert (Z2 : v + rget t j == v) by (rewrite (rget_notin t j Hn); ring).
+    rewrite Z1, (nz_compat _ _ Z2). ring.
+  - apply IH. exact ND'.
+Qed.
+
+Lemma keys_fp_row k a : keys (fp_row k a) = fidx a.
+Proof. unfold keys, fp_row. rewrite map_map. simpl. apply map_id. Qed.
+
+Lemma in_range_cast_row n k r : in_range n r -> in_range n (cast_row k r).
+Proof.
+  unfold in_range, cast_row. rewrite !Forall_forall. intros H e He. apply in_map_iff in He. destruct He as [f [<- Hf]]. simpl. apply H. exact Hf.
+Qed.
+
+Lemma nz_b01_nz v : nz (b01 (nz v)) = nz v.
+Proof. destruct (nz v); reflexivity. Qed.
+
+Lemma b01_binary b : b01 b == 0 \/ b01 b == 1.
+Proof. destruct b; [right | left]; reflexivity. Qed.
+
+(* A row standing for fingerprint a after the dispatcher's coercion for measure m *)
+Definition stands_for (m : metric) (a : fp) (r : row) : Prop :=
+  in_range (fbits a) r /\ row_nonneg r /\
+  match cast_type m with
+  | Some _ => forall i, rget r i == b01 (nz (rget (counts_of a) i))
+  | None => forall i, rget r i == rget (counts_of a) i
+  end.
+
+Lemma sparse_metric_stands m a b r s :
+  wf_fp a -> wf_fp b -> (0 < fbits a)%Z -> fbits a = fbits b -> stands_for m a r -> stands_for m b s ->
+  value_eqv (sparse_metric m (fbits a) r s) (def_metric m (fp_dense a) (fp_dense b)).
+Proof.
+  intros Ha Hb Hp Hn (Rr & Nr & Er) (Rs & Ns & Es). rewrite <- Hn in Rs. assert (H0 : (0 <= fbits a)%Z) by lia.
+  unfold fp_dense. rewrite <- Hn. unfold expand.
+  destruct m; simpl in Er, Es; simpl sparse_metric; simpl def_metric; unfold value_eqv.
+  - rewrite (sp_tanimoto_eq_def (fbits a) r s H0 Rr Rs).
+    + unfold expand. apply tanimoto_ext; intro i; [rewrite (nz_compat _ _ (Er i)) | rewrite (nz_compat _ _ (Es i))]; apply nz_b01_nz.
+    + intro i. destruct (b01_binary (nz (rget (counts_of a) i))) as [E|E]; [left | right]; rewrite (Er i); exact E.
+    + intro i. destruct (b01_binary (nz (rget (counts_of b) i))) as [E|E]; [left | right]; rewrite (Es i); exact E.
+  - rewrite (sp_dice_eq_def (fbits a) r s H0 Rr Rs).
+    + unfold expand. apply dice_ext; intro i; [rewrite (nz_compat _ _ (Er i)) | rewrite (nz_compat _ _ (Es i))]; apply nz_b01_nz.
+    + intro i. destruct (b01_binary (nz (rget (counts_of a) i))) as [E|E]; [left | right]; rewrite (Er i); exact E.
+    + intro i. destruct (b01_binary (nz (rget (counts_of b) i))) as [E|E]; [left | right]; rewrite (Es i); exact E.
+  - rewrite (sp_cosine_eq_def (fbits a) r s Rr Rs). unfold expand. apply cosine_ext; assumption.
+  - rewrite (sp_pearson_eq_def (fbits a) r s H0 Rr Rs). unfold expand. apply pearson_ext; assumption.
+  - rewrite <- (soergel_ext (rget r) (rget (counts_of a)) (rget s) (rget (counts_of b)) (zrange (fbits a)) Er Es).
+    fold (expand (fbits a) r). fold (expand (fbits a) s).
+    apply sp_soergel_eq_def; assumption.
+Qed.
+
+Lemma row_nonneg_fp_row_own a : wf_fp a -> row_nonneg (fp_row (fkind a) a).
+Proof.
+  intro H. unfold row_nonneg, fp_row. rewrite Forall_forall. intros e He. apply in_map_iff in He. destruct He as [i [<- Hi]]. simpl.
+  unfold cast_dtype. destruct (fkind a) eqn:K; try apply b01_range;
+    rewrite (cget_counts_rget a i H); apply rget_nonneg; apply nonneg_counts_of; exact H.
+Qed.
+
+Lemma row_nonneg_fp_row_bit a : row_nonneg (fp_row KBit a).
+Proof.
+  unfold row_nonneg, fp_row. rewrite Forall_forall. intros e He. apply in_map_iff in He. destruct He as [i [<- Hi]]. simpl. apply b01_range.
+Qed.
+
+Lemma row_nonneg_cast_bit r : row_nonneg (cast_row KBit r).
+Proof.
+  unfold row_nonneg, cast_row. rewrite Forall_forall. intros e He. apply in_map_iff in He. destruct He as [f [<- Hf]]. simpl. apply b01_range.
+Qed.
+
+Lemma stands_own m a : wf_fp a -> cast_type m = None -> stands_for m a (fp_row (fkind a) a).
+Proof.
+  intros H C. unfold stands_for. rewrite C. split; [apply in_range_fp_row; exact H|]. split; [apply row_nonneg_fp_row_own; exact H|].
+  intro i. apply rget_fp_row_own. exact H.
+Qed.
+
+Lemma stands_bit m a k : wf_fp a -> cast_type m = Some k -> stands_for m a (fp_row KBit a).
+Proof.
+  intros H C. unfold stands_for. rewrite C. split; [apply in_range_fp_row; exact H|]. split; [apply row_nonneg_fp_row_bit|].
+  intro i. apply rget_fp_row_bit. exact H.
+Qed.
+
+Lemma stands_cast m a k : wf_fp a -> cast_type m = Some k -> stands_for m a (cast_row KBit (fp_row (fkind a) a)).
+Proof.
+  intros H C. unfold stands_for. rewrite C. split; [apply in_range_cast_row; apply in_range_fp_row; exact H|].
+  split; [apply row_nonneg_cast_bit|].
+  intro i. rewrite rget_cast_row_bit by (rewrite keys_fp_row; apply ssorted_NoDup; apply H).
+  rewrite (nz_compat _ _ (rget_fp_row_own a i H)). reflexivity.
+Qed.
+
+(* ---- what the dispatcher computes ---- *)
+Definition own_db (b : fp) : mdb := db_of_fp (fkind b) b.
+
+Definition coerce_row (m : metric) (a : fp) : row :=
+  fp_row (match cast_type m with Some k => k | None => fkind a end) a.
+
+Definition coerce_db (m : metric) (d : mdb) : mdb :=
+  match cast_type m with Some k => db_as_type k d | None => d end.
+
+Lemma cast_type_cases m : cast_type m = None \/ cast_type m = Some KBit.
+Proof. destruct m; simpl; auto. Qed.
+
+Lemma coerce_row_stands m a : wf_fp a -> stands_for m a (coerce_row m a).
+Proof.
+  intro H. unfold coerce_row. destruct (cast_type_cases m) as [C|C]; rewrite C.
+  - apply stands_own; assumption.
+  - apply (stands_bit m a KBit); assumption.
+Qed.
+
+Lemma coerce_own_db m b : wf_fp b ->
+  dwidth (coerce_db m (own_db b)) = fbits b /\ exists s, drows (coerce_db m (own_db b)) = [s] /\ stands_for m b s.
+Proof.
+  intro H. unfold coerce_db. destruct (cast_type_cases m) as [C|C]; rewrite C.
+  - split; [reflexivity|]. exists (fp_row (fkind b) b). split; [reflexivity | apply stands_own; assumption].
+  - unfold db_as_type, own_db, db_of_fp. simpl dkind. destruct (fkind b) eqn:K; simpl kind_eqb; cbv iota.
+    + split; [reflexivity|]. exists (fp_row KBit b). split; [reflexivity | apply (stands_bit m b KBit); assumption].
+    + split; [reflexivity|]. exists (cast_row KBit (fp_row KCount b)). split; [reflexivity|]. rewrite <- K. apply (stands_cast m b KBit); assumption.
+    + split; [reflexivity|]. exists (cast_row KBit (fp_row KFloat b)). split; [reflexivity|]. rewrite <- K. apply (stands_cast m b KBit); assumption.
+Qed.
+
+Lemma array_metric_single m w r s :
+  array_metric m (Sparse w [r]) (Some (Sparse w [s])) = Ok (Matrix [[sparse_metric m w r s]]).
+Proof. unfold array_metric. simpl. rewrite Z.eqb_refl. reflexivity. Qed.
+
+Lemma dispatch_fp_fp m a b : fbits a = fbits b -> dispatch m (IFp a) (Some (IFp b)) = Ok (Scalar (fp_metric m a b)).
+Proof. intro H. unfold dispatch. simpl. rewrite H, Z.eqb_refl. reflexivity. Qed.
+
+Lemma dispatch_fp_db m a d : fbits a = dwidth d ->
+  dispatch m (IFp a) (Some (IDb d)) =
+  array_metric m (Sparse (fbits a) [coerce_row m a]) (Some (Sparse (dwidth (coerce_db m d)) (drows (coerce_db m d)))).
+Proof.
+  intro H. unfold dispatch. simpl. rewrite H, Z.eqb_refl. unfold coerce_row, coerce_db.
+  destruct (cast_type m); reflexivity.
+Qed.
+
+Lemma dispatch_db_fp m d b : dwidth d = fbits b ->
+  dispatch m (IDb d) (Some (IFp b)) =
+  array_metric m (Sparse (dwidth (coerce_db m d)) (drows (coerce_db m d))) (Some (Sparse (fbits b) [coerce_row m b])).
+Proof.
+  intro H. unfold dispatch. simpl. rewrite H, Z.eqb_refl. unfold coerce_row, coerce_db.
+  destruct (cast_type m); reflexivity.
+Qed.
+
+Lemma dispatch_db_db m d e : dwidth d = dwidth e ->
+  dispatch m (IDb d) (Some (IDb e)) =
+  array_metric m (Sparse (dwidth (coerce_db m d)) (drows (coerce_db m d))) (Some (Sparse (dwidth (coerce_db m e)) (drows (coerce_db m e)))).
+Proof.
+  intro H. unfold dispatch. simpl. rewrite H, Z.eqb_refl. unfold coerce_db.
+  destruct (cast_type m); reflexivity.
+Qed.
+
+(* the fingerprint-pair path against the definition, all five measures *)
+Lemma fp_metric_eq_def m a b : wf_fp a -> wf_fp b -> (0 < fbits a)%Z -> fbits a = fbits b ->
+  (cast_type m <> None -> no_stored_zero a /\ no_stored_zero b) ->
+  value_eqv (fp_metric m a b) (def_metric m (fp_dense a) (fp_dense b)).
+Proof.
+  intros Ha Hb Hp Hn Hz. assert (H0 : (0 <= fbits a)%Z) by lia.
+  destruct m; simpl; simpl in Hz.
+  - destruct Hz as [Za Zb]; [discriminate|]. apply fp_tanimoto_eq_def; assumption.
+  - destruct Hz as [Za Zb]; [discriminate|]. apply fp_dice_eq_def; assumption.
+  - apply fp_cosine_eq_def; assumption.
+  - apply fp_pearson_eq_def; assumption.
+  - apply fp_soergel_eq_def; assumption.
+Qed.
+
+Theorem dispatch_consistent m a b :
+  wf_fp a -> wf_fp b -> (0 < fbits a)%Z -> fbits a = fbits b ->
+  (cast_type m <> None -> no_stored_zero a /\ no_stored_zero b) ->
+  let d := def_metric m (fp_dense a) (fp_dense b) in
+  (exists v, dispatch m (IFp a) (Some (IFp b)) = Ok (Scalar v) /\ value_eqv v d) /\
+  (exists v, dispatch m (IFp a) (Some (IDb (own_db b))) = Ok (Matrix [[v]]) /\ value_eqv v d) /\
+  (exists v, dispatch m (IDb (own_db a)) (Some (IFp b)) = Ok (Matrix [[v]]) /\ value_eqv v d) /\
+  (exists v, dispatch m (IDb (own_db a)) (Some (IDb (own_db b))) = Ok (Matrix [[v]]) /\ value_eqv v d).
+Proof.
+  intros Ha Hb Hp Hn Hz d.
+  destruct (coerce_own_db m a Ha) as (Wa & ra & Ra & Sa). destruct (coerce_own_db m b Hb) as (Wb & rb & Rb & Sb).
+  pose proof (coerce_row_stands m a Ha) as Ca. pose proof (coerce_row_stands m b Hb) as Cb.
+  split; [|split; [|split]].
+  - exists (fp_metric m a b). split; [apply dispatch_fp_fp; exact Hn | apply fp_metric_eq_def; assumption].
+  - exists (sparse_metric m (fbits a) (coerce_row m a) rb). split.
+    + rewrite dispatch_fp_db by exact Hn. rewrite Wb, Rb, <- Hn. apply array_metric_single.
+    + apply sparse_metric_stands; assumption.
+  - exists (sparse_metric m (fbits a) ra (coerce_row m b)). split.
+    + rewrite dispatch_db_fp by exact Hn. rewrite Wa, Ra, <- Hn. apply array_metric_single.
+    + apply sparse_metric_stands; assumption.
+  - exists (sparse_metric m (fbits a) ra rb). split.
+    + rewrite dispatch_db_db by exact Hn. rewrite Wa, Ra, Wb, Rb, <- Hn. apply array_metric_single.
+    + apply sparse_metric_stands; assumption.
+Qed.
+
+(* ---- witnesses: where the faithful model leaves the definition ---- *)
+(* z = d - d: a count fingerprint whose stored counts are all 0 (keys kept); d = {1: 2, 2: 3}; 8 bits *)
+Definition wit_z : fp := mkfp KCount 8 (Some (-1)%Z) [1%Z; 2%Z] [(1%Z, 0); (2%Z, 0)] None.
+Definition wit_d : fp := mkfp KCount 8 (Some (-1)%Z) [1%Z; 2%Z] [(1%Z, inject_Z 2); (2%Z, inject_Z 3)] None.
+
+Lemma wit_wf : wf_fp wit_z /\ wf_fp wit_d /\ fbits wit_z = fbits wit_d /\ allzero (fp_dense wit_z).
+Proof.
+  unfold wf_fp, ssorted. simpl. repeat split; repeat constructor; try lia; try (simpl; lra); try reflexivity;
+    simpl; unfold Qle; simpl; lia.
+Qed.
+
+Lemma fp_tanimoto_explicit_zero_refuted :
+  exists a b, wf_fp a /\ wf_fp b /\ fbits a = fbits b /\ allzero (fp_dense a) /\
+              fp_tanimoto a b == 1 /\ tanimoto_def (fp_dense a) (fp_dense b) == 0 /\
+              (exists v, dispatch MTanimoto (IFp a) (Some (IDb (own_db b))) = Ok (Matrix [[VQ v]]) /\ v == 0).
+Proof.
+  exists wit_z, wit_d. destruct wit_wf as (H1 & H2 & H3 & H4).
+  split; [exact H1|]. split; [exact H2|]. split; [exact H3|]. split; [exact H4|].
+  split; [vm_compute; reflexivity|]. split; [vm_compute; reflexivity|].
+  eexists. split; [vm_compute; reflexivity | vm_compute; reflexivity].
+Qed.
+
+Lemma fp_dice_explicit_zero_refuted :
+  exists a b, wf_fp a /\ wf_fp b /\ fbits a = fbits b /\ allzero (fp_dense a) /\
+              fp_dice a b == 1 /\ dice_def (fp_dense a) (fp_dense b) == 0.
+Proof.
+  exists wit_z, wit_d. destruct wit_wf as (H1 & H2 & H3 & H4).
+  split; [exact H1|]. split; [exact H2|]. split; [exact H3|]. split; [exact H4|].
+  split; vm_compute; reflexivity.
+Qed.
+
+(* outside the documented contract of array_metrics.tanimoto ("Data must be binary. This is not checked."): a note *)
+Lemma arr_tanimoto_nonbinary_note :
+  arr_tanimoto [inject_Z 2; 0; inject_Z 3; 0] [inject_Z 2; 1; inject_Z 3; 0] == - (13 # 2) /\
+  tanimoto_def [inject_Z 2; 0; inject_Z 3; 0] [inject_Z 2; 1; inject_Z 3; 0] == 2 # 3.
+Proof. split; vm_compute; reflexivity. Qed.
